@@ -69,7 +69,9 @@ pub fn golden_case_masked(ast: &RangeAst) -> Option<&'static str> {
     for a in &ast.alts {
         if let Alt::Simples { toks, .. } = a {
             let has_garbage = toks.iter().any(|t| t.is_garbage());
-            let has_bare_wild = toks.iter().any(|t| matches!(t, Tok::Cmp { op: Op::Bare | Op::Eq, p, .. } if p.comps[0].is_wild()));
+            // any token that desugars to the empty comparator ('' = any): node joins and re-splits the
+            // comparator strings on blanks, which makes that token vanish
+            let has_bare_wild = toks.iter().any(|t| matches!(t, Tok::Cmp { op, p, .. } if p.comps[0].is_wild() && *op != Op::Gt && *op != Op::Lt));
             if has_garbage && has_bare_wild {
                 return Some("(e) wildcard token next to garbage tokens");
             }
